@@ -217,3 +217,12 @@ Proof.
       split; [apply erun_io; auto; [reflexivity|apply bcreate_drep; assumption]|].
       split; [apply NoDup_apply; exact Hnd|]. split; [reflexivity|]. apply tail_link_created. exact Hc.
 Qed.
+
+Lemma lrun_prefix_drep c bd d acts bd' d' j :
+  lrun c bd d acts bd' d' ->
+  exists bdj, lrun c bd d (firstn j acts) bdj (fold_left apply_act (firstn j acts) d) /\
+              drep c bdj (fold_left apply_act (firstn j acts) d).
+Proof.
+  intros L. destruct (lrun_prefix c bd d acts bd' d' j L) as [bdj Lj].
+  exists bdj. split; [exact Lj|exact (lrun_end _ _ _ _ _ _ Lj)].
+Qed.
